@@ -19,6 +19,8 @@ RULE = ('Hypothesis-generated class DAGs (3-9 classes created with type(); bases
         'six methods (get, get_component, has_component, remove_component, get_processor, remove_processor), the '
         'removing ones on a rebuilt world. Oracle: issubclass/isinstance. '
         'In ~15% of the cases the world goes through 64-150 detach / re-attach (components) and remove / re-add (processors) cycles before it is queried. '
+        ''
+        'One more component / processor class may be defined after the first round of queries; the optional default of get_component is also one of the own components of the entity. '
         'Non-trivial = the DAG has a class with '
         '>= 2 bases and some query type reaches an attached exact type by >= 2 distinct inheritance paths. '
         'Distinct = sha1 of canonical JSON.')
